@@ -139,7 +139,7 @@ type c06Row struct {
 		Name, Global, Hash string
 		Rotated            []string
 	}
-	Accept, Undet bool
+	Accept, Endpoint, Undet bool
 }
 
 func tableN() int {
@@ -237,7 +237,7 @@ func c06One(rep *TReport, raw json.RawMessage, r c06Row, rnd *rand.Rand) {
 		o := w.devpollRaw(mutated)
 		accepted = o.Res == "ok"
 	}
-	rep.cmp(raw, "endpoint_accepts_"+r.Kind, r.Accept, accepted, r.Undet)
+	rep.cmp(raw, "endpoint_accepts_"+r.Kind, r.Endpoint, accepted, r.Undet)
 	if !accepted {
 		after, _ := json.Marshal(w.Project())
 		rep.cmp(raw, "state_unchanged_after_refusal", string(before), string(after), false)
